@@ -96,7 +96,7 @@ def uses(x):
 
 POSITIONS = [
     "arg", "arg2", "ret", "yield", "dictval", "dictkey", "list", "tuple", "set", "method", "static", "classm", "receiver",
-    "caller_local", "global_scan", "global_namesake", "prop_ret", "uses",
+    "caller_local", "global_scan", "global_namesake", "prop_ret", "uses", "program_swaps_profiler",
 ]
 FAULT_SITES = ["log1", "log2", "log3", "flush"]
 
@@ -159,6 +159,16 @@ def scenario(M, T, kind: str, pos: str) -> Callable[[], Any]:
             return type(k.p).__name__
         if pos == "uses":
             return M.uses(obj)
+        if pos == "program_swaps_profiler":
+            # the program installs and removes its own profiler inside the traced block
+            import sys as _sys
+
+            seen = []
+            prev = _sys.getprofile()
+            _sys.setprofile(lambda f, e, a: seen.append(e))
+            M.f(obj)
+            _sys.setprofile(None)
+            return M.f(obj)
         raise ValueError(pos)
 
     return run
@@ -251,7 +261,6 @@ def paired(M, T, files, kind: str, pos: str, faults: Tuple[str, ...], raise_in_b
             if key == "journal" and pos in ("global_namesake", "caller_local") and extra and all(("(__code__)" in x or "(__wrapped__)" in x) for x in extra):
                 sig = "function-lookup-getattr:" + pos
             problems.append((f"{key}-differs", sig, f"{where}: {key} untraced {a!r} vs traced {b!r}" + (f" (hooks run by the tracer: {sorted(set(extra))})" if key == "journal" else "")))
-            break
     if after is not before:
         problems.append(("profiler-not-restored", "profiler", f"{where}: sys.getprofile() is {after!r} after the block, was {before!r}"))
     if logger.flushes != 1:
